@@ -25,6 +25,15 @@ CLAIMED = {
             'random larger cases is the appropriate level.',
             'reference = Python list semantics for index/slice/iterate/len; offsets in 0..len(shard) as produced by SequenceIterator.state.',
             '§3 C09'),
+    'C18': ('exploration',
+            'Hypothesis-generated trees and copy-and-set histories against a reference copy-on-write model plus get/set/frame laws',
+            'Random nested dict/list/tuple/ndarray trees (depth<=4) with 1..6 copy-and-set operations on paths built by construction '
+            '(existing, fresh key, append, multi-level fresh, array element, SELF); after every operation: original deep-equals its '
+            'snapshot, result equals the reference set, get-after-set returns the value, every unrelated leaf is the same object, '
+            're-setting the current value is a no-op; views: leaf enumeration vs reference DFS, multi-key alignment, Literal/SELF/'
+            'SKIP, key_paths, apply(map_fn), copy_and_update. Pure data-structure laws with an executable reference: exploration.',
+            'reference model in vlib/oracles/tree_ref.py; root is a container; reserved words are not used as dict keys.',
+            '§3 C18'),
 }
 
 PENDING_REASON = 'check not built yet in this session (work in progress; see DESIGN.md §9 build order) - not claimed until its check exists'
